@@ -74,8 +74,10 @@ def check_one(ctx, m, ft, size, ss, nf, media, label, offset, fill):
     # the model's geometry (generated arithmetic) against the real one
     ws, r = m.cmd(f"f.mkfs_geom {ft} {size} {ss} {nf}")
     ctx.traces += 1
-    got = dict(kv.split("=") for kv in r.split()[1:])
-    if int(got["fatsz"]) != v.fatsz or int(got["spc"]) != v.spc or int(got["rootent"]) != v.rootent or int(got["rsvd"]) != v.rsvd:
+    got = dict(kv.split("=") for kv in r.split()[1:]) if r and r.startswith("ok") else None
+    if r is not None and got is None:
+        ctx.tie_break("Gen.mkfs_geometry refuses a size the real mkfs accepts", dict(args=args, model=r))
+    elif got is not None and (int(got["fatsz"]) != v.fatsz or int(got["spc"]) != v.spc or int(got["rootent"]) != v.rootent or int(got["rsvd"]) != v.rsvd):
         ctx.tie_break("Gen.mkfs_geometry vs the boot sector mkfs wrote", dict(args=args, model=got, impl=dict(fatsz=v.fatsz, spc=v.spc, rootent=v.rootent, rsvd=v.rsvd)))
     # mounts empty, can be filled
     ir = ImplRun(img)
@@ -134,12 +136,39 @@ def run(ctx):
                 cases.append((ft, secs * 512 + rng.choice([0, 0, 1, 511]), 512, rng.choice([1, 2, 3])))
         for secs in (3, 10, 17, 18, 20, 24, 29, 33, 64, 128):
             cases.append((12, secs * 512, 512, 2))
+        # power-of-two sizes (where a "rounded" size table would put the cluster count over the type's limit)
+        for mib in (2, 4, 8, 16, 32, 64, 128):
+            for nf in (1, 2):
+                cases.append((12, mib << 20, 512, nf))
+                cases.append((12, mib << 20, 4096, nf))
+        # search the GENERATED mkfs arithmetic (extracted model) over whole ranges of sector counts for a geometry that
+        # violates the specification, then confirm any candidate on the real mkfs
+        sweeps = [(12, 512, 2, 18, 530000), (12, 512, 1, 18, 530000), (12, 512, 3, 18, 530000), (16, 512, 2, 8401, 1048576), (16, 512, 1, 8401, 1048576),
+                  (16, 512, 3, 8401, 1048576), (32, 512, 2, 66601, 1048576), (12, 4096, 2, 18, 70000), (16, 4096, 2, 8401, 300000), (12, 1024, 2, 18, 530000)]
+        step = 1 if ctx.tier == "thorough" else 3
+        for ft, ss, nf, lo, hi in sweeps:
+            ws, r = m.cmd(f"f.mkfs_sweep {ft} {ss} {nf} {lo + (ctx.seed % step)} {hi} {step}")
+            if r is None:
+                break
+            t = r.split()
+            ctx.extra["model_sweep_evaluations"] = ctx.extra.get("model_sweep_evaluations", 0) + int(t[-1].split("=")[1]) if t[1] == "bad" else \
+                ctx.extra.get("model_sweep_evaluations", 0) + int(t[2].split("=")[1])
+            if t[1] == "bad":
+                info = dict(kv.split("=") for kv in t[2:])
+                secs = int(info["sectors"])
+                ctx.dist["model-sweep-candidate"] += 1
+                if secs * ss <= (200 << 20):
+                    cases.insert(0, (ft, secs * ss, ss, nf))
+                else:
+                    ctx.tie_break(f"generated mkfs arithmetic violates the specification at {secs} sectors of {ss} bytes (FAT{ft}, {nf} FATs): {r}; too large to confirm on the real mkfs here",
+                                  dict(model=r))
         rng.shuffle(cases)
+        cases.sort(key=lambda c: 0 if ctx.dist.get("model-sweep-candidate") and c in cases[:1] else 1)
         medias = [0xF8, 0xF0, 0xF9, 0xFA, 0xFB, 0xFC, 0xFD, 0xFE, 0xFF]
         labels = ["", "A", "NO NAME", "ELEVENCHARS", "my disk"]
         n = 0
         for ft, size, ss, nf in cases:
-            if ctx.time_left() < 10 or size > (40 << 20 if ctx.tier == "quick" else 300 << 20):
+            if ctx.time_left() < 10 or size > (140 << 20 if ctx.tier == "quick" else 300 << 20):
                 continue
             n += 1
             check_one(ctx, m, ft, size, ss, nf, medias[n % len(medias)], labels[n % len(labels)], 1536 if n % 5 == 0 else 0, fill=(n % 3 == 0))
